@@ -14,6 +14,13 @@ for d, _, files in os.walk(root):
     for f in files:
         if f.endswith('.go'):
             rep[os.path.normpath(os.path.join(virt, f))] = os.path.join(d, f)
+# files injected into existing packages (export shims), overlay only
+INJECT = {
+    '_inject/genlsp_zzverif.go': '/repo/internal/bcl/genlsp/zz_verif_export.go',
+}
+for src, dst in INJECT.items():
+    if os.path.exists(os.path.join(root, src)):
+        rep[dst] = os.path.join(root, src)
 for extra in sys.argv[2:]:
     rep.update(json.load(open(extra))['Replace'])
 json.dump({'Replace': rep}, open(sys.argv[1], 'w'), indent=1)
